@@ -32,7 +32,9 @@ fn replay_of(c: &Case) -> serde_json::Value {
 pub fn check_text(rep: &mut Report, c: &Case) {
     let text = c.text;
     let buflen = 2 * text.len() + 1024;
-    let mut g = Guarded::new(buflen, 0x00, under_miri());
+    // the output buffer has prior contents (a re-used scratch buffer): accessors must not depend on them
+    let fill = [0x00u8, 0xFF, 0xAA, 0x55, 0x01][(fnv(text) % 5) as usize];
+    let mut g = Guarded::new(buflen, fill, under_miri());
     let res = catch(|| match Event::from_json(text, g.slice()) {
         Ok((consumed, ev)) => Ok((consumed, ev.as_bytes().to_vec())),
         Err(e) => Err((errkind(&e), format!("{e}"))),
